@@ -133,11 +133,18 @@ Proof.
       apply R_put; try assumption. eapply cnt_rel_conv; [exact Hc|].
       unfold len. rewrite update_nth_length by (rewrite set_len_length; lia).
       rewrite set_len_length. lia.
-  - (* OInsertAt: only the early return is covered *)
-    cbn [safe_op] in Hsafe.
-    rewrite (c_insert_out _ _ _ _ _ Hoki Hsafe) in Hstep. rewrite Hsafe in Hspec.
-    unfold put in Hstep; cbn [fst snd] in Hstep. inv_step Hstep Hspec. split; [|reflexivity].
-    apply R_keep; [exact HR | exact Hoki | apply cnt_rel_refl].
+  - (* OInsertAt *)
+    destruct (c_insert (get (slots s) i) x v (cn s)) as [c' k'] eqn:E.
+    apply c_insert_ok with (l := get a i) in E; [|exact Hoki].
+    unfold put in Hstep; cbn [fst snd] in Hstep.
+    destruct ((x =? 0) || (len (get a i) + 1 <? x)) eqn:Eb.
+    + destruct E as [-> ->]. inv_step Hstep Hspec. split; [|reflexivity].
+      apply R_keep; [exact HR | exact Hoki | apply cnt_rel_refl].
+    + apply orb_false_iff in Eb. destruct Eb as [Eb1 Eb2].
+      apply N.eqb_neq in Eb1. apply N.ltb_ge in Eb2.
+      destruct E as [Hok' Hc]. inv_step Hstep Hspec. split; [|reflexivity].
+      apply R_put; try assumption. eapply cnt_rel_conv; [exact Hc|].
+      unfold len. rewrite insert_nth_length by (unfold len in *; lia). lia.
   - (* OSetAt *)
     destruct Hoki as (Hn & _). rewrite Hn in Hstep.
     destruct ((x =? 0) || (len (get a i) <? x)) eqn:Eb;
@@ -358,26 +365,16 @@ Theorem capacity_covers_contents ns ops :
   safe_hist ns ops = true -> Forall caps_ok (run_full ns ops).
 Proof. intro H. unfold run_full. eapply caps_from_sim; [apply R_init | exact H]. Qed.
 
-(* ---- the defective operations ------------------------------------------------------------------------ *)
-(* InsertObjectAt without reallocation assigns to the raw cell behind the last element *)
-Lemma insert_in_place_refuted :
-  exists ops, run 1 ops <> spec_run 1 ops.
-Proof. exists [OAdd 0 1%Z; OInsertAt 0 1 5%Z]. vm_compute. intro H. discriminate H. Qed.
-
-(* InsertObjectAt with reallocation frees the old block without destructing its elements *)
-Lemma insert_realloc_refuted :
-  exists ops, run 1 ops <> spec_run 1 ops.
-Proof. exists [OAdd 0 1%Z; OAdd 0 2%Z; OInsertAt 0 1 5%Z]. vm_compute. intro H. discriminate H. Qed.
-
+(* ---- the defective operation ------------------------------------------------------------------------ *)
 (* Resize(0) destroys the contents *)
 Lemma resize_zero_refuted :
   exists ops, run 1 ops <> spec_run 1 ops.
 Proof. exists [OAdd 0 1%Z; OResize 0 0]. vm_compute. intro H. discriminate H. Qed.
 
-(* ---- histories without the two defective operations are safe ------------------------------------------ *)
+(* ---- histories without a Resize(0) call are safe ------------------------------------------ *)
 Definition plain_op (o : op) : bool :=
   match o with
-  | OInsertAt _ _ _ | OResize _ _ => false
+  | OResize _ n => negb (n =? 0)
   | _ => true
   end.
 
@@ -386,7 +383,8 @@ Proof.
   induction ops as [|o ops IH]; intros a H; [reflexivity|].
   cbn [forallb safe_from] in *. apply andb_true_iff in H. destruct H as [H1 H2].
   apply andb_true_iff. split; [|apply IH; exact H2].
-  apply orb_true_iff. right. destruct o; try reflexivity; discriminate H1.
+  apply orb_true_iff. right. destruct o; try reflexivity.
+  cbn [plain_op] in H1. cbn [safe_op]. rewrite H1. reflexivity.
 Qed.
 
 Theorem run_refines_spec_plain ns ops :
